@@ -45,7 +45,7 @@ var indexNames = []string{"c07a", "c07b"}
 
 func genC07(t *rapid.T) *c07Case {
 	profiles := []gen.Profile{gen.PInt, gen.PFloat, gen.PLowStr, gen.PHighStr, gen.PMixNumStr, gen.PBool, gen.PWidth6Str}
-	ds := gen.GenDataset(t, gen.DatasetOpts{MinEvents: 2, MaxEvents: pt.Scale(14, 40), MaxCols: 4, Profiles: profiles, NullPct: 5})
+	ds := gen.GenDataset(t, gen.DatasetOpts{MinEvents: 2, MaxEvents: pt.Scale(14, 20), MaxCols: 4, Profiles: profiles, NullPct: 5})
 	n := len(ds.Events)
 	for _, e := range ds.Events {
 		// a queryable copy of the id (field names starting with "_" are not parsed as fields by SPL)
